@@ -73,6 +73,10 @@ mod feature_extractor;
 mod feature_rewriter;
 mod model;
 
+#[cfg(feature = "verif-hooks")]
+#[allow(missing_docs)]
+pub mod verif;
+
 use std::num::NonZeroU32;
 
 use hashbrown::{HashMap, HashSet};
